@@ -649,6 +649,316 @@ def _truthy_edge(test: ast.AST, var: str):
     return "true" if a else "false"
 
 
+# ---- a small interpreter of one request function (execute_single) for ONE failing request: the exception object is a record with the attributes the scenario fixes and a library
+# class (class tests are decided on the parsed library hierarchy); statements are executed on values (assignments, dict stores, if / raise / return, helpers of the module);
+# nothing of the repository is run. A value that cannot be computed is only a problem when a decision depends on it (then the scenario is "not recognised").
+class _SimUnsupported(Exception):
+    pass
+
+
+class _SimRaised(Exception):
+    def __init__(self, node):
+        super().__init__("raise")
+        self.node = node
+
+
+class _Unk:
+    """a value the interpreter could not compute: every decision that depends on it raises CannotEval"""
+
+    def _no(self, *a, **k):
+        raise CannotEval("a value the interpreter could not compute")
+
+    __bool__ = __eq__ = __ne__ = __len__ = __getitem__ = __iter__ = __contains__ = __lt__ = __gt__ = __le__ = __ge__ = _no
+    __hash__ = object.__hash__
+
+
+class _Exc(Record):
+    """an exception object: library class + the attributes the scenario fixes"""
+
+    def __init__(self, cls, **fields):
+        super().__init__(**fields)
+        self.cls = cls
+
+    def __repr__(self):
+        return f"{self.cls.rsplit('.', 1)[-1]}({', '.join(f'{k}={v!r}' for k, v in self.fields.items())})"
+
+
+_SIM_ERRORS = (CannotEval, TypeError, ValueError, KeyError, AttributeError, IndexError)
+_SIM_MUTATORS = ("update", "setdefault", "pop", "append", "extend", "clear", "add", "remove", "discard", "insert")
+
+
+class _Sim:
+    def __init__(self, mod, hier, exc=None):
+        self.mod, self.hier, self.exc = mod, hier, exc
+        self.injected = exc is None  # the exception is raised by the first try whose body awaits something (the request)
+        self.depth = self.steps = 0
+        self.ret_node = None  # the return statement that ended the outermost function
+
+    # -- expressions ------------------------------------------------------------------------------------------------------------
+    def cls_name(self, node):
+        d = dotted(node)
+        if d is None:
+            return None
+        if self.hier.known(d) and "." in d:
+            return d
+        head = d.split(".")[0]
+        full = getattr(self.mod, "imports", {}).get(head)
+        if full and full != head and self.hier.known(full + d[len(head):]):
+            return full + d[len(head):]
+        return d if self.hier.known(d) else None
+
+    def _class_test(self, n, env):
+        """type(x) is C / x.__class__ == C / ... for an exception record x and a library class C, in either orientation: its truth value; None if n is not such a test"""
+        if not (isinstance(n, ast.Compare) and len(n.ops) == 1 and isinstance(n.ops[0], (ast.Is, ast.IsNot, ast.Eq, ast.NotEq))):
+            return None
+        for a_, b_ in ((n.left, n.comparators[0]), (n.comparators[0], n.left)):
+            obj = a_.args[0] if isinstance(a_, ast.Call) and dotted(a_.func) == "type" and len(a_.args) == 1 and not a_.keywords else \
+                (a_.value if isinstance(a_, ast.Attribute) and a_.attr == "__class__" else None)
+            c_ = self.cls_name(b_)
+            if obj is None or c_ is None:
+                continue
+            try:
+                v_ = self.ev(obj, env)
+            except _SIM_ERRORS:
+                continue
+            if isinstance(v_, _Exc):
+                same = self.hier.resolve_alias(v_.cls) == self.hier.resolve_alias(c_)
+                return same if isinstance(n.ops[0], (ast.Is, ast.Eq)) else not same
+        return None
+
+    def _special_call(self, n, env):
+        """(value,) of a call the interpreter understands beyond minieval (class membership of the exception record, hasattr / getattr / str on records, functions of the module
+        interpreted on the values of their arguments), else None"""
+        d = dotted(n.func)
+
+        def arg(i):
+            return self.ev(n.args[i], env)
+
+        try:
+            if d == "isinstance" and len(n.args) == 2 and not n.keywords:
+                v_ = arg(0)
+                if isinstance(v_, _Exc):
+                    cs_ = [self.cls_name(x) for x in (n.args[1].elts if isinstance(n.args[1], ast.Tuple) else [n.args[1]])]
+                    if all(c_ is not None for c_ in cs_):
+                        return (any(self.hier.is_subclass(v_.cls, c_) for c_ in cs_),)
+                return None
+            if d == "hasattr" and len(n.args) == 2 and source.is_const(n.args[1]) and not n.keywords:
+                v_ = arg(0)
+                return (n.args[1].value in v_.fields,) if isinstance(v_, Record) else None
+            if d == "getattr" and len(n.args) in (2, 3) and source.is_const(n.args[1]) and not n.keywords:
+                v_ = arg(0)
+                if isinstance(v_, Record):
+                    if n.args[1].value in v_.fields:
+                        return (v_.fields[n.args[1].value],)
+                    return (arg(2),) if len(n.args) == 3 else None
+                return None
+            if d in ("str", "repr") and len(n.args) == 1 and not n.keywords:
+                v_ = arg(0)
+                return (str(v_.fields.get("message", v_.cls)),) if isinstance(v_, _Exc) else None
+        except _SIM_ERRORS:
+            return None
+        if isinstance(n.func, ast.Name) and n.func.id not in env:
+            fn = self.mod.get(n.func.id, required=False)
+            if isinstance(fn, source.FUNC_TYPES) and not any(isinstance(a_, ast.Starred) for a_ in n.args) and not any(k.arg is None for k in n.keywords):
+                vals = {}
+                for p_, a_ in source.bind_args(n, fn, skip_self=False).items():
+                    try:
+                        vals[p_] = self.ev(a_, env)
+                    except _SIM_ERRORS:
+                        vals[p_] = _Unk()
+                return (self.call(fn, vals),)
+        return None
+
+    def ev(self, expr, env):
+        sim = self
+
+        class T(ast.NodeTransformer):
+            def visit_Await(self, n):
+                return self.visit(n.value)
+
+            def visit_Compare(self, n):
+                r_ = sim._class_test(n, env)
+                return ast.Constant(value=r_) if r_ is not None else self.generic_visit(n)
+
+            def visit_Call(self, n):
+                r_ = sim._special_call(n, env)
+                return ast.Constant(value=r_[0]) if r_ is not None else self.generic_visit(n)
+
+        return _ev(T().visit(source.clone(expr)), env)
+
+    # -- statements -------------------------------------------------------------------------------------------------------------
+    def call(self, fn, vals: dict):
+        if self.depth > 4:
+            raise CannotEval("helper nesting")
+        env = dict(vals)
+        a_ = fn.args
+        pos = a_.posonlyargs + a_.args
+        for p_, d_ in list(zip(pos[len(pos) - len(a_.defaults):], a_.defaults)) + [(p_, d_) for p_, d_ in zip(a_.kwonlyargs, a_.kw_defaults) if d_ is not None]:
+            if p_.arg not in env:
+                try:
+                    env[p_.arg] = self.ev(d_, {})
+                except _SIM_ERRORS:
+                    pass
+        self.depth += 1
+        try:
+            kind, val = self.block(fn.body, env)
+        finally:
+            self.depth -= 1
+        return val if kind == "return" else None
+
+    def _bind(self, target, value, env, failed=False):
+        if isinstance(target, ast.Name):
+            if failed:
+                env.pop(target.id, None)
+            else:
+                env[target.id] = value
+        elif isinstance(target, (ast.Tuple, ast.List)):
+            vals = list(value) if not failed and isinstance(value, (tuple, list)) and len(value) == len(target.elts) and not any(isinstance(t, ast.Starred) for t in target.elts) else None
+            for i, t in enumerate(target.elts):
+                self._bind(t.value if isinstance(t, ast.Starred) else t, None if vals is None else vals[i], env, failed=vals is None)
+        elif isinstance(target, ast.Subscript):
+            try:
+                box = self.ev(target.value, env)
+            except _SIM_ERRORS:
+                return  # a container the scenario does not know: nothing it decides on
+            if isinstance(box, (dict, list)):
+                try:
+                    box[self.ev(target.slice, env)] = _Unk() if failed else value
+                except _SIM_ERRORS:
+                    raise _SimUnsupported(f"store `{short(target, 50)}` under a key that cannot be computed")
+        elif isinstance(target, ast.Attribute):
+            try:
+                box = self.ev(target.value, env)
+            except _SIM_ERRORS:
+                return
+            if isinstance(box, Record):
+                box.fields[target.attr] = _Unk() if failed else value
+        else:
+            raise _SimUnsupported(f"assignment target {type(target).__name__}")
+
+    def block(self, stmts, env):
+        for s in stmts:
+            self.steps += 1
+            if self.steps > 3000:
+                raise _SimUnsupported("too many steps")
+            if isinstance(s, (ast.Pass, ast.Import, ast.ImportFrom, ast.Global, ast.Nonlocal, ast.Assert)) or isinstance(s, source.FUNC_TYPES) or isinstance(s, ast.ClassDef):
+                continue
+            if isinstance(s, ast.Expr):
+                if isinstance(s.value, ast.Constant) or is_logging_stmt(s) or _log_noise(s.value):
+                    continue
+                c = s.value.value if isinstance(s.value, ast.Await) else s.value
+                if isinstance(c, ast.Call) and isinstance(c.func, ast.Attribute) and c.func.attr in _SIM_MUTATORS:
+                    try:
+                        box = self.ev(c.func.value, env)
+                    except _SIM_ERRORS:
+                        continue  # a container the scenario does not know
+                    if isinstance(box, (dict, list, set)):
+                        try:
+                            getattr(box, c.func.attr)(*[self.ev(a_, env) for a_ in c.args], **{k.arg: self.ev(k.value, env) for k in c.keywords})
+                        except _SIM_ERRORS:
+                            raise _SimUnsupported(f"`{short(c, 60)}` changes a value of the scenario in a way that cannot be computed")
+                        continue
+                try:
+                    self.ev(s.value, env)
+                except _SIM_ERRORS:
+                    # a call the interpreter cannot follow: the mutable values it is handed are unknown from here on
+                    for x in ast.walk(s.value):
+                        if isinstance(x, ast.Name) and isinstance(env.get(x.id), (dict, list, set)) and isinstance(source.parent(x), (ast.Call, ast.keyword)):
+                            env.pop(x.id, None)
+                continue
+            if isinstance(s, ast.Assign):
+                try:
+                    v_, failed = self.ev(s.value, env), False
+                except _SIM_ERRORS:
+                    v_, failed = None, True
+                for t in s.targets:
+                    self._bind(t, v_, env, failed)
+                continue
+            if isinstance(s, ast.AnnAssign):
+                if s.value is not None:
+                    try:
+                        self._bind(s.target, self.ev(s.value, env), env)
+                    except _SIM_ERRORS:
+                        self._bind(s.target, None, env, failed=True)
+                continue
+            if isinstance(s, ast.AugAssign):
+                load = ast.parse(u(s.target), mode="eval").body
+                try:
+                    v_, failed = self.ev(ast.BinOp(left=load, op=s.op, right=ast.parse(u(s.value), mode="eval").body), env), False
+                except _SIM_ERRORS:
+                    v_, failed = None, True
+                self._bind(s.target, v_, env, failed)
+                continue
+            if isinstance(s, ast.If):
+                try:
+                    t_ = bool(self.ev(s.test, env))
+                except _SIM_ERRORS as e:
+                    raise _SimUnsupported(f"the test `{short(s.test, 60)}` cannot be decided in the scenario ({e})")
+                r_ = self.block(s.body if t_ else s.orelse, env)
+                if r_[0] != "fall":
+                    return r_
+                continue
+            if isinstance(s, ast.Return):
+                if self.depth == 0:
+                    self.ret_node = s
+                if s.value is None:
+                    return "return", None
+                try:
+                    return "return", self.ev(s.value, env)
+                except _SIM_ERRORS:
+                    return "return", _Unk()
+            if isinstance(s, ast.Raise):
+                raise _SimRaised(s)
+            if isinstance(s, (ast.With, ast.AsyncWith)):
+                for it in s.items:
+                    if it.optional_vars is not None:
+                        self._bind(it.optional_vars, None, env, failed=True)
+                r_ = self.block(s.body, env)
+                if r_[0] != "fall":
+                    return r_
+                continue
+            if isinstance(s, ast.Try):
+                if not self.injected and any(isinstance(x, ast.Await) for b_ in s.body for x in ast.walk(b_)):
+                    # the request of the scenario fails here
+                    from sa.exc import handler_type_names
+
+                    self.injected = True
+                    h = next((h_ for h_ in s.handlers if self.hier.catches(handler_type_names(h_), self.exc.cls)), None)
+                    if h is None:
+                        self.block(s.finalbody, env)
+                        raise _SimRaised(s)
+                    if h.name:
+                        env[h.name] = self.exc
+                    r_ = self.block(h.body, env)
+                    if r_[0] == "fall":
+                        r_ = self.block(s.finalbody, env)
+                    if r_[0] != "fall":
+                        return r_
+                    continue
+                for part in (s.body, s.orelse, s.finalbody):
+                    r_ = self.block(part, env)
+                    if r_[0] != "fall":
+                        return r_
+                continue
+            raise _SimUnsupported(f"statement {type(s).__name__} at line {getattr(s, 'lineno', '?')}")
+        return "fall", None
+
+
+def _request_outcome(mod, hier, fn, exc, env):
+    """how fn (the request function) ends when its request raises exc, started with the parameter values env: ('raise' | 'return' | 'fall', node or value);
+    raises _SimUnsupported when the scenario cannot be decided"""
+    sim = _Sim(mod, hier, exc)
+    try:
+        kind, val = sim.block(fn.body, dict(env))
+    except _SimRaised as r_:
+        return "raise", r_.node
+    except _SIM_ERRORS as e:
+        raise _SimUnsupported(str(e))
+    if not sim.injected:
+        raise _SimUnsupported("no try around an awaited request was found")
+    return kind, sim.ret_node if kind == "return" else val
+
+
 def run(chk):
     repo = chk.repo
     model = ActorModel(repo)
@@ -1406,6 +1716,51 @@ def run(chk):
 
     check_execute_single(chk, drv, "O9.5b")
 
+    # ---- O9.5f a refused connection is fatal whatever else the exception carries, and abort aborts -----------------------------------------------------------------
+    # decided on VALUES: the request function is interpreted (see _Sim) for a request that raises a library exception object; where the classification stands in the handler, how it
+    # is spelled and whether helpers of the module do part of it plays no role. The error policy is the parameter (by role: a parameter the function compares with a string).
+    chk.rule("O9.5f", "execute_single, interpreted for a request that raises the exact elasticsearch.ConnectionError (connection refused: a node died) under on-error=continue, ends "
+             "in a raise whatever else the exception carries (no earlier attempt in e.errors, an earlier attempt without / with an HTTP status, no message); under on-error=abort it "
+             "ends in a raise for every transport error", 7,
+             "a dead node (the transport attaches the errors of its earlier attempts to the final ConnectionError) is recorded as a failed sample under on-error=continue, "
+             "the race completes and is reported as a success")
+    from sa.exc import Hierarchy
+
+    hier = getattr(chk.repo, "_c04_hier", None)
+    if hier is None:
+        hier = chk.repo._c04_hier = Hierarchy()
+    es_fn = drv.func("execute_single")
+    policy = [p_ for p_ in params_of(es_fn) + [k_.arg for k_ in es_fn.args.kwonlyargs]
+              if any(isinstance(c, ast.Compare) and any(isinstance(x, ast.Name) and x.id == p_ for x in ast.walk(c)) and any(isinstance(x, ast.Constant) and isinstance(x.value, str) for x in ast.walk(c))
+                     for c in ast.walk(es_fn))]
+    CE, CT, TE = "elasticsearch.ConnectionError", "elasticsearch.ConnectionTimeout", "elasticsearch.TransportError"
+    if not all(hier.known(c) for c in (CE, CT, TE)):
+        raise AnchorMissing("library exception classes elasticsearch.ConnectionError / ConnectionTimeout / TransportError")
+
+    def _earlier(**kw):
+        return _Exc(CE, message="Connection refused", errors=(), **kw)
+
+    scenarios = [(CE, "continue", "no earlier attempt", dict(message="Connection refused", errors=())),
+                 (CE, "continue", "one earlier attempt (retried once)", dict(message="Connection refused", errors=(_earlier(),))),
+                 (CE, "continue", "earlier attempts, the first one carries an HTTP status", dict(message="Connection refused", errors=(_earlier(status=502), _earlier()))),
+                 (CE, "continue", "an empty message", dict(message="", errors=(_earlier(),))),
+                 (CE, "abort", "one earlier attempt", dict(message="Connection refused", errors=(_earlier(),))),
+                 (CT, "abort", "timed out", dict(message="Connection timed out", errors=())),
+                 (TE, "abort", "some transport error", dict(message="transport error", errors=()))]
+    for cls_, pol_, what, fields in scenarios:
+        inst = f"request raises {cls_.rsplit('.', 1)[-1]} ({what}), on-error={pol_}"
+        if not policy and pol_ == "abort":
+            chk.unknown("O9.5f", "execute_single: no parameter is compared with a string (the error policy was not located)", es_fn)
+            break
+        try:
+            kind, val = _request_outcome(drv, hier, es_fn, _Exc(cls_, **fields), {p_: pol_ for p_ in policy})
+        except _SimUnsupported as e:
+            chk.unknown("O9.5f", f"execute_single, {inst}: {e} - not recognised in this shape of execute_single", es_fn)
+            continue
+        chk.ob("O9.5f", inst, kind == "raise", val if isinstance(val, ast.AST) else es_fn,
+               "ends in a raise" if kind == "raise" else "execute_single returns a (failed) sample instead of raising: the task goes on and the race can end as a success",
+               key=f"{drv.relpath}:execute_single:fatal:{cls_}|{pol_}|{what}")
+
     # ---- O9.9 cancellation chain and abort policy per task -------------------------------------------------------------------------------------------------------
     chk.rule("O9.9", "user cancellation: race() tells race control BenchmarkCancelled (blocking) and raises; an exit request sets the worker's cancel event while its executor runs; the worker's "
              "wake-up reports BenchmarkCancelled before looking at the future; the request loop stops at the next request; the task's error behaviour is 'abort' iff the benchmark's is "
@@ -1555,6 +1910,120 @@ def run(chk):
         ok = bool(cs_) and all(under(c, is_set) for c in cs_) and all(under(e_, not_set) and not any(poll_after(c, e_) for c in cs_) for e_ in ex_)
         chk.ob("O9.9", "worker wake-up reports cancellation before polling the future", ok, cs_[0][0] if cs_ else wkh,
                "" if ok else ("no BenchmarkCancelled is sent" if not cs_ else f"expected the report under `{is_set}` and the poll under `{not_set}`"))
+    # ---- O9.9s the cancel event stands for a cancellation by the user only -------------------------------------------------------------------------------------------
+    # by data flow: the event is the Worker attribute found above; it reaches the load generator through constructor arguments (Worker -> AsyncIoAdapter -> AsyncExecutor, every
+    # attribute a constructor stores it in). In each of the three classes every use of the event is classified (through single-assignment aliases and into helper methods /
+    # module functions it is handed to): a `.set` is legitimate only in a method of the Worker that runs on behalf of the exit request alone.
+    chk.rule("O9.9s", "the worker's cancel event - the one its exit request sets and its wake-up answers with BenchmarkCancelled, followed by data flow Worker -> AsyncIoAdapter -> "
+             "AsyncExecutor through constructor arguments, attributes, local aliases and helper parameters - is set nowhere but on behalf of the exit request: no method of the load "
+             "generator and no other handler of the worker sets it (a failure must never look like a cancellation)", 3,
+             "a failing client / handler sets the shared cancel event: the worker's wake-up answers BenchmarkCancelled instead of BenchmarkFailure, race control takes it for a "
+             "cancellation by the user and race() returns normally")
+
+    def all_ctor_flows(src_funcs, src_attr, ctor_name, target_init):
+        """every attribute of the constructed object that receives self.<src_attr> of the constructing one (argument, directly or via a local -> parameter -> `self.<y> = <parameter>`)"""
+        out = []
+        for fn in src_funcs:
+            for c in ast.walk(fn):
+                if isinstance(c, ast.Call) and last_attr(c.func) == ctor_name:
+                    for p_, v_ in source.bind_args(c, target_init).items():
+                        if is_self_attr(_through_locals(v_, source.enclosing_func(c) or fn), src_attr):
+                            out += [n.targets[0].attr for n in walk_body(target_init) if isinstance(n, ast.Assign) and len(n.targets) == 1 and is_self_attr(n.targets[0])
+                                    and isinstance(_through_locals(n.value, target_init), ast.Name) and _through_locals(n.value, target_init).id == p_]
+        return sorted(set(out))
+
+    _EVENT_READS = ("is_set", "isSet", "clear", "wait")
+
+    def event_uses(fn, attrs, names, cls_node, next_ctor, depth=0, seen=()):
+        """(set sites, uses that are not followed) of the event in fn, where the event is self.<a> for a in attrs or one of the local names (a parameter it arrives in);
+        single-assignment aliases are looked through, helper methods of the class and functions of the module that are handed the event are entered"""
+        sets, lost = [], []
+        names = set(names)
+        changed = True
+        while changed:  # aliases: `ev = self.cancel` (bound once)
+            changed = False
+            for k_, v_ in _ldefs(fn).items():
+                if k_ not in names and ((is_self_attr(v_) and v_.attr in attrs) or (isinstance(v_, ast.Name) and v_.id in names)):
+                    names.add(k_)
+                    changed = True
+        for x in ast.walk(fn):
+            if not ((is_self_attr(x) and x.attr in attrs and isinstance(x.ctx, ast.Load)) or (isinstance(x, ast.Name) and x.id in names and isinstance(x.ctx, ast.Load))):
+                continue
+            p = source.parent(x)
+            if isinstance(p, ast.Attribute) and p.value is x:
+                if p.attr == "set":
+                    sets.append((p, fn))
+                elif p.attr not in _EVENT_READS:
+                    lost.append(p)
+            elif isinstance(p, ast.Assign) and p.value is x:
+                if not all((isinstance(t, ast.Name) and t.id in names) or (is_self_attr(t) and t.attr in attrs) for t in p.targets):
+                    lost.append(p)
+            elif isinstance(p, (ast.Call, ast.keyword)):
+                c = p if isinstance(p, ast.Call) else source.parent(p)
+                if not isinstance(c, ast.Call) or c.func is x:
+                    lost.append(p)
+                elif last_attr(c.func) == next_ctor or _log_noise(c):
+                    pass  # the flow itself (followed by all_ctor_flows) / a logging argument
+                else:
+                    callee = _class_method(cls_node, c.func.attr) if is_self_attr(c.func) else (drv.get(c.func.id, required=False) if isinstance(c.func, ast.Name) else None)
+                    if not isinstance(callee, source.FUNC_TYPES) or depth > 3 or id(callee) in seen:
+                        lost.append(c)
+                    else:
+                        inner = [p_ for p_, a_ in source.bind_args(c, callee, skip_self=is_self_attr(c.func)).items() if a_ is x]
+                        if not inner:
+                            lost.append(c)
+                        else:
+                            s2, l2 = event_uses(callee, attrs if is_self_attr(c.func) else (), inner, cls_node if is_self_attr(c.func) else None, next_ctor, depth + 1, seen + (id(fn),))
+                            # uses of self.<attr> inside the helper method are seen when the class's methods are scanned; here only what happens to the parameter counts
+                            sets += [(n_, f_) for n_, f_ in s2 if not is_self_attr(n_.value)]
+                            lost += [n_ for n_ in l2 if not any(is_self_attr(y) for y in ast.walk(n_))]
+            elif isinstance(p, (ast.Compare, ast.BoolOp, ast.UnaryOp, ast.If, ast.IfExp, ast.While, ast.Assert, ast.Expr, ast.JoinedStr, ast.FormattedValue)):
+                pass  # identity / truthiness / formatting of the event object: no effect on it
+            else:
+                lost.append(p)
+        return sets, lost
+
+    if ev_w is None:
+        chk.unknown("O9.9s", "the worker's cancel event was not identified (see O9.9)", Wk.node)
+    else:
+        adp_attrs = all_ctor_flows(wk_funcs, ev_w, "AsyncIoAdapter", adp_init)
+        ex_attrs = sorted({x_ for a_ in adp_attrs for x_ in all_ctor_flows(adp_funcs, a_, "AsyncExecutor", exi)})
+        holders = [("Worker", Wk.node, wk_funcs, [ev_w], "AsyncIoAdapter"), ("AsyncIoAdapter", ADP, adp_funcs, adp_attrs, "AsyncExecutor"),
+                   ("AsyncExecutor", ex, list(drv.methods(ex).values()), ex_attrs, None)]
+        for cname, cnode, funcs, attrs_, nxt in holders:
+            if not attrs_:
+                chk.unknown("O9.9s", f"{cname}: the attribute the cancel event arrives in was not located", cnode)
+                continue
+            sets, lost = [], []
+            for fn in funcs:
+                s_, l_ = event_uses(fn, attrs_, (), cnode, nxt)
+                sets, lost = sets + s_, lost + l_
+            foreign = []
+            for n_, fn in sets:
+                origins = _origin_handlers(fn, cnode) if cname == "Worker" else []
+                if cname != "Worker":
+                    foreign.append((n_, f"{cname}.{fn.name} (a method of the load generator)"))
+                elif exr is None or any(o_ != exr.name for o_ in origins):
+                    # in the worker itself the failure may be reported on the spot: a set that lies behind a BenchmarkFailure send on every path, or is followed by one on every
+                    # normal path, cannot turn that failure into a cancellation (nothing wakes the worker up again in between)
+                    gs_ = cfg_of(fn)
+                    fwd_ = set(params_of(fn)[1:2]) if fn.name == "receiveMsg_BenchmarkFailure" else set()  # the failure this handler passes on
+                    rep_ = [gs_.node_of(c) for c, _ in _report_sites(model, Wk, fn, fwd_, set(addr[Wk.name]), accept_failure=True)[0]]
+                    sn_ = gs_.node_of(n_)
+                    if rep_ and (gs_.must_pass(sn_, rep_, normal_only=True) or sn_.id not in gs_.reachable([gs_.entry], avoid=rep_)):
+                        continue
+                    foreign.append((n_, f"Worker.{fn.name}, which runs for {sorted(set(o_ for o_ in origins if exr is None or o_ != exr.name))}"))
+                elif not origins:
+                    lost.append(n_)
+            inst = f"{cname}: the cancel event (self.{' / self.'.join(attrs_)}) is set on behalf of the exit request only"
+            if foreign:
+                chk.ob("O9.9s", inst, False, foreign[0][0], f"`{short(source.enclosing_stmt(foreign[0][0]), 60)}` in {foreign[0][1]}: the worker's next wake-up reports BenchmarkCancelled, "
+                       "which race control takes for a cancellation by the user", key=f"{drv.relpath}:{cname}:cancel-event-set")
+            elif lost:
+                chk.unknown("O9.9s", f"{cname}: the cancel event is used in `{short(source.enclosing_stmt(lost[0]) or lost[0], 60)}`, a use the rule does not follow", lost[0])
+            else:
+                chk.ob("O9.9s", inst, True, cnode, f"{len(sets)} set site(s), all reached from {exr.name if exr is not None else '-'} only", key=f"{drv.relpath}:{cname}:cancel-event-set")
+
     # the request loop: within an iteration the request (the execute_single call, or the helper call that leads to it) is only reached while the cancel event is NOT set, and the
     # arm taken when it IS set leaves the loop. Decided on VALUES: every guard fact of the request inside the loop (single-assignment locals and predicate helpers of the executor -
     # `def _cancelled(self): return self.cancel.is_set()` - looked through) is evaluated with the event's is_set() fixed to True / False; where the test stands in the iteration,
@@ -2304,4 +2773,49 @@ VARIANTS = [
      V("", "break", _R, "def race(cfg: types.Config", "def _notify_cancelled(actor_system, benchmark_actor):\n    actor_system.tell(benchmark_actor, actor.BenchmarkCancelled())\n\n\ndef race(cfg: types.Config")],
     V("dispatcher re-wraps the failure but only logs it", "break", _M, "    def receiveMsg_BenchmarkFailure(self, msg, sender):\n        self.send(self.start_sender, msg)",
       "    def receiveMsg_BenchmarkFailure(self, msg, sender):\n        failure = actor.BenchmarkFailure(msg.message, msg.cause)\n        self.logger.error(\"%s\", failure)", "O9."),
+    # ---- strengthening round 5 (seeds m14, m15) ---------------------------------------------------------------------------------------------------------------------------
+    # O9.9s: the cancel event stands for a cancellation by the user only
+    V("seed m14: a failing client sets the shared cancel event (fail fast)", "break", _D, "            self.logger.exception(\"Could not execute schedule\")\n",
+      "            self.logger.exception(\"Could not execute schedule\")\n            self.cancel.set()\n", "O9.9s"),
+    V("the adapter sets the cancel event when one of its clients fails", "break", _D, "            _ = await asyncio.gather(*awaitables)\n        finally:\n",
+      "            _ = await asyncio.gather(*awaitables)\n        except BaseException:\n            self.cancel.set()\n            raise\n        finally:\n", "O9.9s"),
+    V("the executor sets the cancel event through a local alias when it ends early", "break", _D, "        finally:\n            # Actively set it if this task completes its parent\n",
+      "        finally:\n            stop_others = self.cancel\n            if not task_completes_parent:\n                stop_others.set()\n            # Actively set it if this task completes its parent\n", "O9.9s"),
+    [V("the failing client sets the event in a helper function of the module it hands it to", "break", _D, "            self.logger.exception(\"Could not execute schedule\")\n",
+       "            self.logger.exception(\"Could not execute schedule\")\n            _stop_clients(self.cancel)\n", "O9.9s"),
+     V("", "break", _D, "async def execute_single(runner, es, params, on_error):\n", "def _stop_clients(event):\n    event.set()\n\n\nasync def execute_single(runner, es, params, on_error):\n")],
+    V("the worker's wake-up sets the cancel event when the finished future holds an exception, then answers as if the user had cancelled", "break", _D,
+      "            if self.cancel.is_set():\n                self.logger.info(\"Worker[%s] has detected that benchmark has been cancelled. Notifying master...\", str(self.worker_id))\n",
+      "            if self.executor_future is not None and self.executor_future.done() and self.executor_future.exception(timeout=0):\n                self.cancel.set()\n"
+      "            if self.cancel.is_set():\n                self.logger.info(\"Worker[%s] has detected that benchmark has been cancelled. Notifying master...\", str(self.worker_id))\n", "O9.9"),
+    V("the worker stops its clients after it has passed on a failure of one of its own handlers", "keep", _D, "        # sent by our no_retry infrastructure; forward to master\n        self.send(self.driver_actor, msg)\n",
+      "        # sent by our no_retry infrastructure; forward to master\n        self.send(self.driver_actor, msg)\n        self.cancel.set()\n"),
+    V("the worker sets the cancel event right after it has reported the failure of the load generator", "keep", _D,
+      "                    self.send(self.driver_actor, actor.BenchmarkFailure(f\"Error in load generator [{self.worker_id}]\", str(e)))\n",
+      "                    self.send(self.driver_actor, actor.BenchmarkFailure(f\"Error in load generator [{self.worker_id}]\", str(e)))\n                    self.cancel.set()\n"),
+    V("exit request sets the cancel event through a local alias", "keep", _D, "            self.cancel.set()\n        self.pool.shutdown()\n", "            event = self.cancel\n            event.set()\n        self.pool.shutdown()\n"),
+    V("adapter hands the events to the executor by keyword", "keep", _D, _X_CTOR,
+      "            async_executor = AsyncExecutor(client_id, task, schedule, es, self.sampler, cancel=self.cancel, complete=self.complete, on_error=task.error_behavior(self.abort_on_error))\n"),
+    V("the executor's broad handler logs whether the user had cancelled", "keep", _D, "            self.logger.exception(\"Could not execute schedule\")\n",
+      "            self.logger.exception(\"Could not execute schedule (cancelled: %s)\", self.cancel.is_set())\n"),
+    # O9.5f: a refused connection is fatal whatever else the exception carries
+    [V("seed m15: the fatal classification became the elif of the block that reads e.errors", "break", _D,
+       "        # we *specifically* want to distinguish connection refused (a node died?) from connection timeouts\n        # pylint: disable=unidiomatic-typecheck\n"
+       "        if type(e) is elasticsearch.ConnectionError:\n            fatal_error = True\n\n", "", "O9.5f"),
+     V("", "break", _D, "                request_meta_data[\"http-status\"] = e.errors[0].status\n",
+       "                request_meta_data[\"http-status\"] = e.errors[0].status\n        elif type(e) is elasticsearch.ConnectionError:\n            fatal_error = True\n")],
+    V("a connection error is fatal only when the transport did not retry", "break", _D, "        if type(e) is elasticsearch.ConnectionError:\n", "        if type(e) is elasticsearch.ConnectionError and not e.errors:\n", "O9.5f"),
+    V("the fatal flag is taken back when an earlier attempt is on record", "break", _D, "        if e.errors:\n            if hasattr(e.errors[0], \"status\"):\n",
+      "        if e.errors:\n            fatal_error = False\n            if hasattr(e.errors[0], \"status\"):\n", "O9.5f"),
+    V("a fatal error with an HTTP status on record does not abort", "break", _D, "        if on_error == \"abort\" or fatal_error:\n",
+      "        if on_error == \"abort\" or (fatal_error and \"http-status\" not in request_meta_data):\n", "O9.5"),
+    V("fatal classification as one assignment", "keep", _D, "        if type(e) is elasticsearch.ConnectionError:\n            fatal_error = True\n", "        fatal_error = type(e) is elasticsearch.ConnectionError\n"),
+    [V("fatal classification moved below the block that reads e.errors, as an if of its own", "keep", _D,
+       "        # we *specifically* want to distinguish connection refused (a node died?) from connection timeouts\n        # pylint: disable=unidiomatic-typecheck\n"
+       "        if type(e) is elasticsearch.ConnectionError:\n            fatal_error = True\n\n", ""),
+     V("", "keep", _D, "                request_meta_data[\"http-status\"] = e.errors[0].status\n",
+       "                request_meta_data[\"http-status\"] = e.errors[0].status\n        if type(e) is elasticsearch.ConnectionError:\n            fatal_error = True\n")],
+    V("fatal classification spelled with __class__ the other way round, meta data built with update()", "keep", _D,
+      "        if type(e) is elasticsearch.ConnectionError:\n            fatal_error = True\n\n        total_ops = 0\n        total_ops_unit = \"ops\"\n        request_meta_data = {\"success\": False, \"error-type\": \"transport\"}\n",
+      "        if elasticsearch.ConnectionError == e.__class__:\n            fatal_error = True\n\n        total_ops = 0\n        total_ops_unit = \"ops\"\n        request_meta_data = {\"success\": False}\n        request_meta_data.update({\"error-type\": \"transport\"})\n"),
 ]
